@@ -23,6 +23,8 @@ type zzFrag struct {
 	maxZeros    int
 	eofWithData bool
 	name        string
+	limit       int // > 0: after this many short chunks the rest is delivered as asked for
+	short       int
 }
 
 func (r *zzFrag) Read(p []byte) (int, error) {
@@ -41,9 +43,15 @@ func (r *zzFrag) Read(p []byte) (int, error) {
 	if r.zeros >= r.maxZeros {
 		lo = 1
 	}
-	n := zzInt(r.name+zzItoa(r.k), lo, mx)
-	r.k++
-	n = int(zzConc(uint64(n)))
+	n := mx
+	if r.limit == 0 || r.short < r.limit {
+		n = zzInt(r.name+zzItoa(r.k), lo, mx)
+		r.k++
+		n = int(zzConc(uint64(n)))
+		if n < mx {
+			r.short++
+		}
+	}
 	if n == 0 {
 		r.zeros++
 		return 0, nil
